@@ -2866,6 +2866,12 @@ namespace bloch::runtime {
                     // Map built-ins directly to simulator operations.
                     // TODO: In the noisy simulator this logic will have to remain the same
                     // so we will need the same basic quantum operations
+                    if ((name == "rx" || name == "ry" || name == "rz") &&
+                        !std::isfinite(args[1].floatValue)) {
+                        // cos/sin of an infinite or NaN angle would fill the state with NaN
+                        throw BlochError(ErrorCategory::Runtime, callExpr->line, callExpr->column,
+                                         name + " requires a finite rotation angle");
+                    }
                     if (name == "h") {
                         ensureQubitActive(args[0].qubit, callExpr->line, callExpr->column);
                         m_sim.h(args[0].qubit);
